@@ -103,6 +103,14 @@ impl TimeoutQC {
 """
 
 IMPLIED_SPEC = r"""
+// r is the block implied by justification j (the postcondition of get_implied_block, shared with the replica unit)
+pub open spec fn is_implied(j: ProposalJustification, s: &Schedule, first: BlockNumber, r: (BlockNumber, Option<PayloadHash>)) -> bool {
+    match j {
+        ProposalJustification::Commit(qc) => r == j.spec_implied(s, first, None, None),
+        ProposalJustification::Timeout(qc) => exists|hq: Option<&CommitQC>| #[trigger] qc.is_high_qc(hq)
+            && r == j.spec_implied(s, first, qc.spec_high_vote(s), hq),
+    }
+}
 impl ProposalJustification {
     // The rule of the statement: after a commit certificate for (n,h) the next block is n+1 (fresh payload); after a timeout
     // certificate the block is the sub-quorum high vote (re-proposal of ITS payload) when that vote is for a HIGHER number than
@@ -205,6 +213,11 @@ def build(repo):
     Q.add_timeout(U)
     U.props = ["C02"]
     U.item(F_LP, "enum ProposalJustification")
+    add_implied(U)
+    return U
+
+
+def add_implied(U):
     U.raw(PRELUDE, label="prelude implied")
     U.raw(SPEC, label="spec implied", canary=True)
     U.fn(T.F_BLOCK, "impl BlockNumber :: fn next", wrap="impl BlockNumber", ret="r", spec="""
@@ -256,14 +269,10 @@ def build(repo):
              self matches ProposalJustification::Commit(qc) ==> qc.message.proposal.number.0 < u64::MAX,
              self matches ProposalJustification::Timeout(qc) ==> forall|j: int| 0 <= j < qc.map.entries().len()
                  && (#[trigger] qc.map.entries()[j]).0.high_qc.is_some() ==> qc.map.entries()[j].0.high_qc.unwrap().message.proposal.number.0 < u64::MAX,
-    ensures
-        self matches ProposalJustification::Commit(qc) ==> r == self.spec_implied(validators_schedule, fork_first_block, None, None),
-        self matches ProposalJustification::Timeout(qc) ==> exists|hq: Option<&CommitQC>| #[trigger] qc.is_high_qc(hq)
-            && r == self.spec_implied(validators_schedule, fork_first_block, qc.spec_high_vote(validators_schedule), hq),
+    ensures is_implied(*self, validators_schedule, fork_first_block, r),
 """)
     U.raw(SUBQUORUM, label="sub-quorum lemma", canary=True)
     U.assume("A1: std HashMap entry API / into_iter / filter / collect and BTreeMap keys / filter_map / max_by_key behave as documented "
              "(3 pipeline templates; the closures passed to them are the repository's and are verified)")
     U.assume("A7: block numbers carried by certificates are < 2^64-1 (BlockNumber::next would panic otherwise)")
     U.assume("H-ind: the one-step sub-quorum lemma is not chained over arbitrarily many views (no history induction)")
-    return U
